@@ -119,7 +119,7 @@ def _run_trace(toks):
 def run(ctx):
     import chempy  # noqa
     slices = QUICK if ctx.quick else THOROUGH
-    per_slice = 2500 if ctx.quick else None
+    per_slice = 2500 if ctx.quick else 250000
     for sl in slices + ["sim"]:
         if sl == "sim":   # deep random behaviours of the full-alphabet grammar (tlc -simulate)
             res = ctx.tlc("Formula_MC", "Formula_MC_sim.cfg", simulate="num=%d" % (150 if ctx.quick else 4000),
@@ -133,6 +133,7 @@ def run(ctx):
                           require_cases=100, timeout=1500)
         cases = res.cases
         sel = ctx.pick(cases, per_slice, always=lambda c: c["cls"].startswith("fault") and ctx.quick and False)
+        res.cases = cases = None          # only the sample is kept in memory
         outs = ctx.pmap(replay_case, sel)
         ctx.cases_replayed += len(sel)
         for case, bad in zip(sel, outs):
@@ -144,7 +145,7 @@ def run(ctx):
                                "expected": _expected_view(case["exp"]), "tlc_cfg": "Formula_MC_%s.cfg" % sl})
         if sel:
             ctx.sample({"slice": sl, "txt": sel[0]["in"]["txt"], "exp": _expected_view(sel[0]["exp"])}, cap=8)
-    # TLC enumerates each slice completely; the quick tier replays a stratified sample of the cases
+    # TLC enumerates each slice completely; both tiers replay a stratified sample of the cases (2 500 / 250 000 per slice)
     ctx.exhaustive = not ctx.quick
 
     # ---- code -> spec: seeded generator beyond the bounds, judged by TLC
